@@ -1663,6 +1663,7 @@ def gen_followers(rng, tier, with_cmds, with_states, n_quick=120, n_thorough=900
             elif r < 0.40: ops.append("%s:%d" % (fol, i))
             elif r < 0.45: ops.append("%s:%d" % (unfol, i))
             elif r < 0.53: ops.append(("ss:%d:%s" % (i, datum_state(rng, t))) if k == "s" else ("sc:%d:%s" % (i, datum_cmd(rng, t))))
+            elif r < 0.56: ops += [rng.choice(["x:%d" % i, "c:%d:%d" % (i % nt, nt + rng.randrange(nt))]), "oa"]   # (dis/re)connecting touches only the link
             elif r < 0.65: ops += ["tu:%d" % i, "oa"]
             elif r < 0.72: ops += ["ut:0", "oa"]
             else: ops += ["u:0", "oa"] + (["ra"] if rng.random() < 0.4 else [])
